@@ -221,6 +221,46 @@ def rule_pairing(facts, rep):
     rep.fn(cs["path"])
     got = pairs_in(cs)
     rep.check(got == want, "pairing", cs["path"], "sheet-entries-use-the-same-prefixes", f"every class a span can carry is defined with the palette value of the same colour: {got}", loc(cs))
+    # by abstract evaluation on run lists: every colour a run carries gets its sheet entry whatever the run's text is (visible,
+    # blank, empty) and wherever it stands — a span's class without a rule in the sheet has no colour at all
+    import abseval
+    import itertools as _it
+    consts = {}
+    for nm in ("FG_PREFIX", "BG_PREFIX", "UNDERLINE_PREFIX"):
+        consts[V + nm] = nm
+
+    def sheet_of(runs):
+        entries = []
+        atoms = {"alloc::collections::btree::map::BTreeMap::<K, V, A>::insert": lambda a_: (entries.append((a_[1], a_[2])), ("none",))[1],
+                 "alloc::collections::btree::map::BTreeMap::<K, V>::new": lambda a_: ("sym", "map"),
+                 V + "color_name": lambda a_: ("name", a_[0], a_[1]), V + "rgb_value": lambda a_: ("rgb", a_[0], a_[1]),
+                 "*": lambda cal, a_, e_: ("app", cal) + tuple(a_)}
+        ev = abseval.Evaluator(facts, "anstyle_svg", atoms, inline_crates=("anstyle",))
+        ev.concrete_strings = True
+        ev.consts = dict(consts)
+        ev.call_fn("anstyle_svg", cs["path"], [("array",) + tuple(runs), ("sym", "palette")])
+        return entries
+
+    def style(fg, bg, ul):
+        o = lambda c: ("some", ("sym", c)) if c else ("none",)
+        return ("rec", {"fg": o(fg), "bg": o(bg), "underline": o(ul), "effects": ("ctor", "anstyle::effect::Effects", ("int", 0))})
+    bad_ = []
+    n_cases = 0
+    for text in ("x", " ", "", "\n", " \t "):
+        for fg, bg, ul in _it.product((None, "F"), (None, "B"), (None, "U")):
+            for lead in ((), (("tuple", style(None, None, None), ("str", "visible")),)):
+                n_cases += 1
+                runs = list(lead) + [("tuple", style(fg, bg, ul), ("str", text))]
+                want_e = [(("name", ("str", p_), ("sym", c)), ("rgb", ("sym", c), ("sym", "palette")))
+                          for p_, c in (("FG_PREFIX", fg), ("BG_PREFIX", bg), ("UNDERLINE_PREFIX", ul)) if c]
+                try:
+                    got_e = sheet_of(runs)
+                except Unrecognised as ex:
+                    got_e = [("not-evaluable", str(ex)[:80])]
+                if sorted(map(repr, got_e)) != sorted(map(repr, want_e)):
+                    bad_.append(f"run text {text!r}, colours {(fg, bg, ul)}: entries {str(got_e)[:160]}")
+    rep.count(n_cases)
+    rep.check(not bad_, "pairing", cs["path"], "every-carried-colour-gets-its-entry", f"{n_cases} run lists evaluated {bad_[:2]}"[:500], loc(cs))
     # sheet writer: starts_with(PREFIX) → rule kind
     r = facts.body("anstyle_svg", V + "Term::render_svg")
     kinds = {}
@@ -413,6 +453,12 @@ def rule_names(facts, rep):
     calls = [x for x in hir.walk(rv["hir"]) if hir.is_call(x, "anstyle_lossy::color_to_rgb")]
     ok = len(calls) == 1 and [hir.local_name(a) for a in calls[0]["args"]] == ["color", "palette"]
     rep.check(ok, "names", rv["path"], "through-color_to_rgb(color,palette)", "", loc(rv))
+    # ... on every call: a value remembered from an earlier call (static / thread-local cache) would carry another Term's palette
+    statics = [i["path"] for i in facts.items("anstyle_svg") if i["dk"] == "Static"]
+    tls = [x for b_ in facts.bodies("anstyle_svg") if "hir" in b_ and "::tests" not in b_["path"] for x in hir.walk(b_["hir"])
+           if x.get("k") == "call" and "thread::local::LocalKey" in (hir.callee(x) or "")]
+    conds = [x for x in hir.walk(rv["hir"]) if x.get("k") in ("if", "match") and x.get("src") not in ("TryDesugar",) and not hir.is_fmt_block(x)]
+    rep.check(not statics and not tls, "names", "anstyle_svg", "no-state-between-renders", f"statics {statics}, thread-local accesses {len(tls)}", "")
     fmts = hir.fmt_blocks(rv["hir"])
     ok = False
     if len(fmts) == 1:
